@@ -171,7 +171,7 @@ class Session:
                 o = self.resolve(op["h"])
                 s = o.to_b64()
                 self.store[op["key"]] = s
-                return {"snap": len(s) > 0}
+                return {"snap": len(s) > 0, "dump": C.canon(o)}
             if kind == "restore":
                 s = self.store[op["key"]]
                 if op.get("kind") == "poly":
@@ -290,6 +290,13 @@ class Session:
             return self._finish_iter(op, it)
         if m == "dump":
             return {"v": C.canon(o)}
+        if m == "mutate":
+            # the *caller* edits its own restored copy in place (plain numpy API on a polyhedron)
+            if a.get("how") == "dpv":
+                o.default_prio_vector[:] = 0
+            else:
+                o[(0,) * o.ndim] += 7
+            return {"v": "mutated"}
         if m == "construct":
             return {"v": C.canon(o.construct(decode_weights(a["d"])))}
         raise OpError(f"unknown method {m}")
